@@ -102,6 +102,15 @@ def handleLimit (args : List String) (obs : String) : String :=
   | _ => "bad-case\tFAIL:bad-case"
 
 
+/-- c12b `<size> <back>`: every unit of a large set is taken, `back` of them are dropped, as many are taken again
+    (model: `C12_tokens`: units + live = size in every reachable state, so exactly `back` units are available again). -/
+def handleTokensBig (args : List String) (obs : String) : String :=
+  match args.mapM String.toNat? with
+  | some [size, back] =>
+    let model := s!"first={size} again={min back size} held={size}"
+    model ++ "\t" ++ (if obs == model then "ok" else "FAIL:slots-not-conserved:")
+  | _ => "bad-case\tFAIL:bad-case"
+
 /-- c12e `<n> <rounds>`: accept failures by descriptor exhaustion. -/
 def handleEmfile (args : List String) (obs : String) : String :=
   match (args.take 2).mapM String.toNat? with
@@ -178,7 +187,7 @@ def handleShutdown (args : List String) (obs : String) : String :=
   | [nS, phases, _] =>
     match nS.toNat? with
     | some n =>
-      let ph := phases.toList.filter (· != '-')
+      let ph := phases.toList.filter (fun c => c != '-' && c != 'L')
       let s0 := run false (Srv.new n) (fill ph.length)
       let early := (s0.map (·.acc)) == some Acc.stopped
       let steps := (s0.bind fun s => step false s .revoke).bind fun s => loopAlone 8 s 0
